@@ -63,6 +63,40 @@ def main():
                     c2, _ = irdump.canon(d2)
                     if (err2, c2) != (err, c):
                         out["again_differs"] = irdump.diff_paths(c, c2)[:3] if err2 == err else [err, err2]
+            elif kind == "driver":
+                # the command-line driver: `gtirb-rewriting --run=P1 --run=P2 ... in out`; the passes register their
+                # insertions at the same place, in the order of the command line
+                import tempfile
+
+                import gtirb
+                from gtirb_rewriting import AllFunctionsScope, BlockPosition, FunctionPosition, Pass
+                from gtirb_rewriting.driver import _driver_core, _PassEntryPointAdaptor
+
+                B = emodify.build(req["case"])
+
+                def mk(asm):
+                    class P(Pass):
+                        def begin_module(self, module, functions, rewriting_ctx):
+                            rewriting_ctx.register_insert(AllFunctionsScope(FunctionPosition.ENTRY, BlockPosition.ENTRY), emodify.make_patch(asm))
+
+                    return P
+
+                eps = [_PassEntryPointAdaptor(name, mk(asm)) for name, asm in req["available"]]
+                with tempfile.TemporaryDirectory() as td:
+                    B.ir.save_protobuf(td + "/in.gtirb")
+                    _driver_core(eps, True, ["gtirb-rewriting"] + ["--run=" + n for n in req["run"]] + [td + "/in.gtirb", td + "/out.gtirb"])
+                    ir2 = gtirb.IR.load_protobuf(td + "/out.gtirb")
+                d = irdump.dump_ir(ir2.modules[0], irdump.IdMap())
+                d["order"], d["fbb"], d["next"] = [], [], 0
+                base = {}
+                for iv in d["intervals"]:
+                    if iv["addr"] is not None:
+                        base[iv["sect"]] = min(base.get(iv["sect"], iv["addr"]), iv["addr"])
+                for iv in d["intervals"]:
+                    if iv["addr"] is not None:
+                        iv["addr"] -= base[iv["sect"]]
+                c, _ = irdump.canon(d)
+                out = {"err": None, "canon": c}
             else:
                 import props.c10 as c10
 
